@@ -29,6 +29,10 @@ class In:
         self.lo, self.hi = lo, hi
         if sym_arr is None:
             sym_arr = symarray(name, self.shape, complex_=(kind == "complex"))
+        if not isinstance(sym_arr, np.ndarray):  # a bare scalar for shape ()
+            a = np.empty((), dtype=object)
+            a[()] = sym_arr
+            sym_arr = a
         self.sym = sym_arr
         if dtype is None:
             dtype = {"real": jnp.float64, "complex": jnp.complex128, "int": jnp.int32}[kind]
